@@ -440,6 +440,18 @@ func (s *verifMultiSuite) runMulti(c *check.C, op *verifMultiOp) {
 		if f.S < 1 || f.S > len(op.Snaps) || f.K < 1 || f.K > s.mLens[f.S-1] || seenSnap[f.S] {
 			continue
 		}
+		if f.Op != "" {
+			// a backend operation is only failed if a task of this snap's chain calls it from its do-handler
+			hosted := false
+			for _, k := range s.mLabels[f.S-1] {
+				for _, hk := range verifMultiOpHost[f.Op] {
+					hosted = hosted || k == hk
+				}
+			}
+			if !hosted {
+				continue
+			}
+		}
 		seenSnap[f.S] = true
 		first := 0
 		for i := 0; i < f.S-1; i++ {
@@ -609,12 +621,8 @@ func (s *verifMultiSuite) TestVerifMultiHistories(c *check.C) {
 		lens := append([]int{}, s.mLens...)
 		labels := s.mLabels
 		for si, n := range lens {
-			for k := 1; k <= n; k++ {
-				if h.Chain && si == 0 && k == 1 {
-					continue
-				}
-				attempt(fmt.Sprintf("%s.s%dk%d", h.ID, si+1, k), []verifMultiFault{{S: si + 1, K: k}})
-			}
+			// backend operations first: on one system (chain) a later entry fault may come after a completed,
+			// irrevocable discard, which shortens the chain for the attempts that follow
 			for _, opName := range h.EnumOps {
 				for k := 1; k <= n; k++ {
 					host := false
@@ -627,6 +635,12 @@ func (s *verifMultiSuite) TestVerifMultiHistories(c *check.C) {
 					attempt(fmt.Sprintf("%s.s%dk%d:%s", h.ID, si+1, k, opName), []verifMultiFault{{S: si + 1, K: k, Op: opName}})
 					break
 				}
+			}
+			for k := 1; k <= n; k++ {
+				if h.Chain && si == 0 && k == 1 {
+					continue
+				}
+				attempt(fmt.Sprintf("%s.s%dk%d", h.ID, si+1, k), []verifMultiFault{{S: si + 1, K: k}})
 			}
 		}
 		if h.Chain {
